@@ -199,8 +199,23 @@ func VerifC11_Reuse() {
 	for round := 0; round < 3; round++ {
 		st[round] = c11Setting{fee: bellatrix.ExecutionAddress(vnd.Addr("fee")), gas: vnd.U64("gas")}
 		cfg.settings[1][relay.name] = st[round]
+		before := signer.calls
 		_ = s.submitValidatorRegistrationsForAccounts(context.Background(), accounts)
 		vnd.Quiesce()
+		// content that differs from the previous round's is signed afresh, even
+		// when it equals what some earlier round signed (settings changed and
+		// changed back): the old object carries the old timestamp
+		if round > 0 {
+			changed := st[round] != st[round-1]
+			if changed {
+				vnd.Assert(signer.calls == before+1, "C11.reuse.changed-content-is-signed-afresh")
+			} else {
+				vnd.Assert(signer.calls == before, "C11.reuse.unchanged-content-is-not-signed-again")
+			}
+			if changed && st[round] == st[0] && round == 2 {
+				vnd.Cover("C11.reuse.changed-and-changed-back")
+			}
+		}
 		vnd.Assert(len(relay.calls) == round+1 && len(relay.calls[round]) == 1, "C11.reuse.each-round-registers")
 		reg := relay.calls[round][0].V1
 		vnd.Assert(reg.Message.FeeRecipient == st[round].fee && reg.Message.GasLimit == st[round].gas, "C11.reuse.content-is-current-settings")
